@@ -342,6 +342,10 @@ func findIDInQueue[M interface{ ID() EventID }](q *queue[M], id EventID, autoID 
 				return -1
 			}
 			pos = int(delta) //nolint:gosec // delta < q.count, which is an int
+			if pos == q.count-1 {
+				// The newest event: there is nothing after it to replay.
+				return -1
+			}
 		}
 
 		i := pos + q.head + 1
@@ -366,6 +370,10 @@ func findIDInQueue[M interface{ ID() EventID }](q *queue[M], id EventID, autoID 
 		if i == len(q.buf) {
 			i = 0
 		} else if i == q.tail {
+			i = -1
+		}
+		if i == q.tail {
+			// The newest event sits in the last slot and the write index has wrapped around.
 			i = -1
 		}
 	}
